@@ -191,6 +191,9 @@ pub struct Config {
     pub nshards: u64,
     pub stride: u64,
     pub scale: f64,
+    /// Light lanes (Miri, memcheck): probability with which a directed item is
+    /// generated at all; 0 = normal lane. Light lanes do no hash slicing.
+    pub light: f64,
     pub out: Option<String>,
     pub replay: Option<String>,
     pub journal: Option<String>,
@@ -209,6 +212,7 @@ impl Config {
             nshards: 1,
             stride: 1,
             scale: 1.0,
+            light: 0.0,
             out: None,
             replay: None,
             journal: None,
@@ -232,6 +236,7 @@ impl Config {
                 }
                 "--stride" => c.stride = v.parse().expect("harness: --stride"),
                 "--scale" => c.scale = v.parse().expect("harness: --scale"),
+                "--light" => c.light = v.parse().expect("harness: --light"),
                 "--out" => c.out = Some(v),
                 "--replay" => c.replay = Some(v),
                 "--journal" => c.journal = Some(v),
@@ -255,6 +260,7 @@ pub struct Mon {
     pub prop: &'static str,
     pub cfg: Config,
     pub rng: crate::rng::Rng,
+    keep_rng: crate::rng::Rng,
     dispatch: Dispatch,
     start: Instant,
     // current case
@@ -347,6 +353,7 @@ impl Mon {
         install_panic_hook();
         let cfg = Config::from_args();
         let rng = crate::rng::Rng::new(cfg.seed, 0);
+        let keep_rng = crate::rng::Rng::new(cfg.seed ^ 0x6b65_6570, cfg.shard + 1);
         let journal = cfg.journal.as_ref().map(|p| {
             std::fs::OpenOptions::new()
                 .create(true)
@@ -359,6 +366,7 @@ impl Mon {
             prop,
             cfg,
             rng,
+            keep_rng,
             dispatch,
             start: Instant::now(),
             cur_op: Rc::from(""),
@@ -397,7 +405,24 @@ impl Mon {
         let mut h = 0xcbf2_9ce4_8422_2325u64;
         fnv(&mut h, tag.as_bytes());
         fnv(&mut h, &(bits as u64).to_le_bytes());
+        if self.cfg.light > 0.0 {
+            fnv(&mut h, &self.cfg.shard.to_le_bytes());
+        }
         crate::rng::Rng::new(self.cfg.seed, h)
+    }
+
+    /// Thinning of directed corpora in light lanes (Miri, memcheck), where even
+    /// generating a case is expensive: true always in normal lanes, true with
+    /// probability `--light` otherwise (independent stream per shard).
+    pub fn keep(&mut self) -> bool {
+        if self.cfg.light <= 0.0 {
+            return true;
+        }
+        (self.keep_rng.u64() >> 11) as f64 / (1u64 << 53) as f64 <= self.cfg.light
+    }
+
+    pub fn is_light(&self) -> bool {
+        self.cfg.light > 0.0
     }
 
     /// Number of random iterations for a base budget under the lane's scale.
@@ -456,7 +481,7 @@ impl Mon {
         }
         let h = case_hash(op, bits, &args);
         let modulus = self.cfg.nshards * self.cfg.stride;
-        if modulus > 1 {
+        if modulus > 1 && self.cfg.light <= 0.0 {
             let want = (self.cfg.shard + self.cfg.nshards * (self.cfg.seed % self.cfg.stride)) % modulus;
             if (h >> 7) % modulus != want {
                 return;
@@ -750,6 +775,7 @@ impl Mon {
             "nshards": self.cfg.nshards,
             "stride": self.cfg.stride,
             "scale": self.cfg.scale,
+            "light": self.cfg.light,
             "generated": self.generated,
             "evaluations": self.evaluations,
             "nontrivial_evaluations": self.nontrivial_evals,
